@@ -154,6 +154,11 @@ func runC14(c *Ctx) {
 				viaG = map[string]bool{}
 			}
 		}
+		// a multi-root workspace: the files are spread over two workspace folders that lie next to each other
+		if len(sw.Files) >= 2 && r.Fork(0x726f6f74).Chance(1, 4) {
+			sw.Reroot([]string{"rootA", "rootB"})
+			c.Count("multi_root_workspaces", 1)
+		}
 		c.Eval(1)
 		ws, srv, err := startScopeServer(c, sw, fmt.Sprintf("c14w%d", wi))
 		if err != nil {
